@@ -31,7 +31,8 @@
 (*               written (torn frame, torn marker, complete-but-unacked)   *)
 (*   CrashIdle   ... between two steps                                     *)
 (*   Scan        a fresh process scans read-only (tail posture) and asks   *)
-(*               the bare coordinator to recover (refusal is recorded)     *)
+(*               the bare coordinator to recover (refusal is recorded;     *)
+(*               AsBuiltBareRecover selects the as-built / repaired law)   *)
 (*   Repair      recover_filesystem_store(Writable): truncate to the last  *)
 (*               complete committed transaction                            *)
 (*   FsRecover   ExtAction!Recover on the repaired log; the lifecycle      *)
@@ -47,7 +48,10 @@ EXTENDS ExtAction
 CONSTANTS FrameLen,       \* bytes of a frame record (>= 2)
           MarkLen,        \* bytes of a commit-marker record (>= 2)
           MutTornMarker,  \* model mutant: a torn commit marker counts as committed
-          MutRepairDeep   \* model mutant: tail repair drops one transaction too many
+          MutRepairDeep,  \* model mutant: tail repair drops one transaction too many
+          AsBuiltBareRecover \* TRUE: FilesystemWalStore::read_snapshot drops the torn-tail flag (as built before the repair
+                          \* seeded/fixes/f17.diff): the bare coordinator refuses only a COMPLETE uncommitted frame.
+                          \* FALSE (repaired): a torn partial record makes the snapshot fail (SegmentHasUncommittedTail)
 
 VARIABLES tornB,   \* bytes of a partial record behind the last complete record
           tornK,   \* "-" | "frame" | "marker": which record is torn
@@ -76,8 +80,11 @@ Cls(k, n) == IF k = 0 THEN "0" ELSE IF k = n THEN "complete" ELSE IF k = 1 THEN 
 
 \* recover_filesystem_store(ReadOnly).tail_posture
 TailClass == IF HasTail(seg) \/ tornB > 0 THEN (IF CommitTxs(seg) = {} THEN "all" ELSE "after") ELSE "clean"
-\* ExternalActionCoordinatorV1::recover over the file store BEFORE any repair: only complete records are seen
-BareRecover == IF HasTail(seg) THEN "WalTailNotClean" ELSE "Ok"
+\* ExternalActionCoordinatorV1::recover over the file store BEFORE any repair.  Repaired: read_snapshot refuses a segment
+\* that ends in a torn partial record (the coordinator reports the store error), a complete uncommitted frame yields
+\* WalTailNotClean.  As built: only complete records are seen, a torn record is invisible.
+BareRecover == IF ~AsBuiltBareRecover /\ tornB > 0 THEN "WalStore"
+               ELSE IF HasTail(seg) THEN "WalTailNotClean" ELSE "Ok"
 
 FsInit ==
   /\ Init
@@ -175,8 +182,10 @@ Inv_FsNoHalfApplied ==
 Inv_FsIdempotent ==
    /\ Truncate(Truncate(seg)) = Truncate(seg)
    /\ (mode \in {"repaired", "live"} /\ pend = None) => (Truncate(seg) = seg)
-\* the bare coordinator refuses every log with a complete uncommitted frame
-Inv_FsBareRefusesTail == HasTail(seg) => BareRecover = "WalTailNotClean"
+\* the bare coordinator refuses EVERY unclean tail - a complete uncommitted frame and a torn partial record alike: an
+\* accepted torn tail lets the next transaction be appended behind the torn bytes, where no later recovery finds it
+\* (finding F17; violated with AsBuiltBareRecover = TRUE, kept as MC_C17fs_asbuilt_bare.cfg)
+Inv_FsBareRefusesTail == (HasTail(seg) \/ tornB > 0) => BareRecover # "Ok"
 Inv_FsShape ==
    /\ tornB >= 0 /\ (tornB = 0) = (tornK = "-")
    /\ (tornK = "frame") => (tornB < FrameLen /\ ~HasTail(seg))
